@@ -3,6 +3,7 @@
   Property theorems only.
 -/
 import Pongo.Lemmas.Eval
+import Pongo.Gen.LexTables
 import Pongo.Lemmas.Replace
 import Pongo.Model.Sets
 import Pongo.Gen.Registry
@@ -152,6 +153,15 @@ theorem filter_tag_is_chain_on_rendered_body (p tp : TokPos) (chain : List (Byte
   rw [run_bind_ok hbody]
   rw [run_bind_ok (tag_chain_order T cfg g p chain hreg (mkV (.str out)) r σ1 fuel hf hseq)]
   rfl
+
+/-- **what counts as a name** (regenerated from lexer.go): a name starts with an ASCII letter or
+    `_` and goes on with letters, digits and `_`; exactly eight words are reserved (`in and or not
+    true false as export`) — every other word, `none`, `_`, `_x`, `end`, … is an ordinary name that
+    a loop variable, a macro parameter or a context key can bear -/
+theorem gen_name_tables :
+    Gen.lexTables.identChars = b!"abcdefghijklmnopqrstuvwxyzABCDEFGHIJKLMNOPQRSTUVWXYZ_" ∧
+    Gen.lexTables.identDigitChars = b!"abcdefghijklmnopqrstuvwxyzABCDEFGHIJKLMNOPQRSTUVWXYZ_0123456789" ∧
+    Gen.lexTables.keywords = [b!"in", b!"and", b!"or", b!"not", b!"true", b!"false", b!"as", b!"export"] := by decide
 
 /-- **Unknown filters are compile errors**: a name that is not registered is
     refused wherever `parseFilter` is reached. -/
